@@ -48,6 +48,14 @@ type CircuitBreaker struct {
 	lastFailureTime time.Time
 	lastSuccessTime time.Time
 	nextAttempt     time.Time
+	// state changes recorded under the lock, delivered to onStateChange after it is released
+	pendingChanges []stateChange
+}
+
+// stateChange is a state transition whose callback has not been delivered yet
+type stateChange struct {
+	from State
+	to   State
 }
 
 var (
@@ -171,7 +179,7 @@ func (cb *CircuitBreaker) beforeRequest() error {
 				cb.requestCount = 0
 				cb.successCount = 0
 			}
-			cb.mutex.Unlock()
+			cb.unlockAndNotify()
 			return nil
 		}
 		return ErrCircuitBreakerOpen
@@ -195,7 +203,7 @@ func (cb *CircuitBreaker) beforeRequest() error {
 // afterRequest updates the circuit breaker state after a request
 func (cb *CircuitBreaker) afterRequest(success bool) {
 	cb.mutex.Lock()
-	defer cb.mutex.Unlock()
+	defer cb.unlockAndNotify()
 
 	now := time.Now()
 
@@ -228,7 +236,8 @@ func (cb *CircuitBreaker) afterRequest(success bool) {
 	}
 }
 
-// setState changes the circuit breaker state and calls the callback
+// setState changes the circuit breaker state and queues the callback.
+// Must be called with the write lock held; the callback runs in unlockAndNotify.
 func (cb *CircuitBreaker) setState(state State) {
 	if cb.state == state {
 		return
@@ -238,7 +247,20 @@ func (cb *CircuitBreaker) setState(state State) {
 	cb.state = state
 
 	if cb.onStateChange != nil {
-		cb.onStateChange(cb.name, prev, state)
+		cb.pendingChanges = append(cb.pendingChanges, stateChange{from: prev, to: state})
+	}
+}
+
+// unlockAndNotify releases the write lock and then delivers the queued state-change
+// callbacks, so a callback may call back into the breaker (State, Counts) without
+// deadlocking on the lock the transition was made under.
+func (cb *CircuitBreaker) unlockAndNotify() {
+	changes := cb.pendingChanges
+	cb.pendingChanges = nil
+	cb.mutex.Unlock()
+
+	for _, c := range changes {
+		cb.onStateChange(cb.name, c.from, c.to)
 	}
 }
 
